@@ -82,7 +82,19 @@ class Faults(Part):
         workers = case["workers"]
         dim = rng.randint(1, 3)
         bounds = rng.choice([[[-5.0, 5.0]] * dim, [[-3.0, -1.0]] * dim, [[1e-9, 2e-9]] * dim, [[-1e6, 1e6]] * dim])
-        rec = jobrec.Rec(dim=dim, m=rng.randint(1, 2), bounds=bounds, constrained=rng.random() < 0.5, script=script,
+        gate = None
+        if workers > 1:
+            import threading
+            import time
+            glock = threading.Lock()
+            grng = pyrandom.Random(case["cseed"] + 21)
+
+            def gate(kind, k):
+                # keep several objective calls in flight at once: failures of different designs must interleave
+                with glock:
+                    d = grng.choice([0.0005, 0.001, 0.002])
+                time.sleep(d)
+        rec = jobrec.Rec(dim=dim, m=rng.randint(1, 2), bounds=bounds, constrained=rng.random() < 0.5, script=script, gate=gate,
                          mode="serial" if workers == 1 else "parallel", workers=workers)
         vectors = [[rng.uniform(b[0], b[1]) for b in bounds] for _ in range(n)]
         rec.new_batch(vectors, pre=pre)
